@@ -3,19 +3,27 @@ package iterators
 // Range creates an Iterator that will
 // iterate numbers from a to b, including b.
 func Range(a, b int) Iterator {
-	return &ranger{pos: a - 1, end: b}
+	return &ranger{pos: a, end: b}
 }
 
+// ranger yields pos, pos+1, ..., end. It never computes a value outside
+// [pos, end], so it is exact and terminates for every pair of ints.
 type ranger struct {
-	pos int
-	end int
+	pos  int
+	end  int
+	done bool
 }
 
 // Next returns the next number in the Range or nil
 func (r *ranger) Next() interface{} {
-	if r.pos < r.end {
-		r.pos++
-		return r.pos
+	if r.done || r.pos > r.end {
+		return nil
 	}
-	return nil
+	v := r.pos
+	if r.pos == r.end {
+		r.done = true
+	} else {
+		r.pos++
+	}
+	return v
 }
